@@ -24,7 +24,7 @@ import (
 // reported, and exactly bool/int64/float64 under AsBool/AsInt64/AsFloat64;
 // (ii) every single-fault mutant (every position x fault kind) is rejected by Compile.
 
-func c03StaticType(src string) (t reflect.Type, err error) {
+func c03StaticTypeErr(src string) (t reflect.Type, err error) {
 	defer func() {
 		if r := recover(); r != nil {
 			t, err = nil, fmt.Errorf("PANIC: %v", r)
@@ -104,7 +104,7 @@ func c03Sound(e *gen.Expr, only string) (kind, detail string, val henv.Val, runs
 	src := e.String()
 	vals := henv.Valuations(gen.Vars(e))
 	names := gen.Names(e)
-	st, serr := c03StaticType(src)
+	st, serr := c03StaticTypeErr(src)
 	type variant struct {
 		name string
 		opts []expr.Option
@@ -418,6 +418,44 @@ func c03(r *report.Run) {
 			}
 		}
 	}
+	// conditionals whose branches have different static types; nil branches under result directives
+	for _, c := range []struct {
+		src string
+		opt expr.Option
+		dir string
+	}{
+		{"B ? I : F", nil, ""}, {"B ? F : I", nil, ""}, {"B ? U : I", nil, ""}, {"B ? I8 : I", nil, ""}, {"(B ? U : I) == 3", nil, ""}, {"(B ? I8 : I) in [1, 2]", nil, ""},
+		{"B ? nil : F", expr.AsFloat64(), "float64"}, {"B ? I64 : nil", expr.AsInt64(), "int64"}, {"B ? F : nil", expr.AsFloat64(), "float64"}, {"B ? I : F", expr.AsFloat64(), "float64"}, {"B ? I64 : U8", expr.AsInt64(), "int64"},
+		{"P?.N", expr.AsInt64(), "int64"}, {"O?.Next?.N", expr.AsInt64(), "int64"}, {"B ? T1() : F1()", expr.AsBool(), "bool"},
+	} {
+		famOrder++
+		ops := []expr.Option{expr.Env(henv.Env{})}
+		if c.opt != nil {
+			ops = append(ops, c.opt)
+		}
+		p, err := c16Compile(c.src, ops...)
+		if err != nil {
+			continue
+		}
+		static := c03StaticType(c.src)
+		for _, b := range []bool{true, false} {
+			env := henv.MakeFull(henv.Val{})
+			env.B = b
+			out, rerr := c16Run(p, *env)
+			if rerr != nil {
+				continue // a nil under a numeric directive fails: a value-dependent failure
+			}
+			ot := reflect.TypeOf(out)
+			if c.dir != "" {
+				if ot == nil || ot.String() != c.dir {
+					r.Report(report.Violation{Sub: "soundness", Kind: "directive-type/family", Witness: c.src + " as " + c.dir, Order: famOrder, Detail: map[string]interface{}{"B": b, "result": fmt.Sprintf("%T", out)}})
+				}
+			} else if static != nil && static.Kind() != reflect.Interface && ot != static {
+				r.Report(report.Violation{Sub: "soundness", Kind: "result-type-differs-from-checker", Witness: c.src, Order: famOrder, Detail: map[string]interface{}{"B": b, "checker": fmt.Sprint(static), "result": fmt.Sprintf("%T", out)}})
+			}
+		}
+		// and the reference evaluator decides whether a failure is a type-reason failure
+	}
 	for _, src := range []string{"PtrOnly()", "PtrOnly() + I", "T1() and PtrOnly() > 0"} {
 		famOrder++
 		c16Compile(src, expr.Env(&henv.Env{}))
@@ -430,4 +468,9 @@ func c03(r *report.Run) {
 	r.Set("distinct_nontrivial", mutants)
 	r.Assume("well-typedness is by construction of the typed grammar (reference typing rules of DESIGN.md Appendix E); soundness is asserted only for expressions without interface{}-typed sub-expressions")
 	r.Assume("a run that fails where the dynamically typed reference evaluator succeeds on well-typed operands is a type-reason failure; no error text is parsed")
+}
+
+func c03StaticType(src string) reflect.Type {
+	t, _ := c03StaticTypeErr(src)
+	return t
 }
